@@ -61,7 +61,7 @@ def cases(draw, convs=S.ALL_CONVS):
     spec["mode"] = "raw"
     return {
         "spec": spec,
-        "given": draw(st.sampled_from(["name", "array", "none"])),
+        "given": draw(st.sampled_from(["name", "array", "derived", "none"])),
         "clim": draw(st.sampled_from([None, None, [-5.5, 17.25]])),
         "transform": draw(st.booleans()),
         "extra_kwargs": draw(st.booleans()),
@@ -100,6 +100,10 @@ def check_case(case, ctx):
             args = (var["name"],)
         elif given == "array":
             args = (ds[var["name"]] * 1,)
+        elif given == "derived":
+            # an array computed from the variable (it still carries the variable's name, as
+            # xarray arithmetic keeps it): what is plotted is the array that was handed over
+            args = (ds[var["name"]].astype("float64") * 2 + 1,)
         else:
             args = ()
             if case["array_override"] and live:
@@ -118,12 +122,14 @@ def check_case(case, ctx):
             want = refmodel.polygon_ring(polygons[n])
             ctx.check(got == want, "C19.patch_outline",
                       lambda: f"{what}: patch {k} has vertices {got}; cell {n} has outline {want}")
-        if given in ("name", "array"):
+        if given in ("name", "array", "derived"):
             arr = pc.get_array()
             ctx.check(arr is not None and len(arr) == len(live), "C19.patch_values",
                       lambda: f"{what}: array has {None if arr is None else len(arr)} values for "
                       f"{len(live)} patches")
             values = [stored(var, n) for n in live]
+            if given == "derived":
+                values = [float(v) * 2 + 1 for v in values]
             for k, n in enumerate(live):
                 ctx.check(same_number(float(numpy.ma.filled(arr, numpy.nan)[k]), values[k]),
                           "C19.patch_values",
@@ -168,7 +174,12 @@ def check_case(case, ctx):
         ctx.at("C19.quiver")
         quiver = conv.make_quiver(axes, u["name"], ds[v["name"]])
         n_faces = len(polygons)
-        centres = conv.face_centres
+        # where the dataset itself stores the cell centres they are the reference, otherwise
+        # the convention's own face_centres (checked against the polygons by C02)
+        from vf.props.c02 import stored_centres
+        centres = stored_centres(spec)
+        if centres is None:
+            centres = conv.face_centres
         ctx.check(quiver.N == n_faces, "C19.quiver_positions",
                   lambda: f"quiver has {quiver.N} arrows for {n_faces} cells")
         X = numpy.ma.filled(numpy.ma.asarray(quiver.X, dtype=float), numpy.nan)
@@ -190,6 +201,18 @@ def check_case(case, ctx):
                 continue
             ctx.check(same_number(U[n], wu) and same_number(V[n], wv), "C19.quiver_components",
                       lambda: f"arrow {n} has components ({U[n]}, {V[n]}); cell {n} stores ({wu}, {wv})")
+        # u scaled by the caller (same name, other values): the arrows carry the scaled values
+        ctx.at("C19.quiver_components")
+        scaled = conv.make_quiver(axes, ds[u["name"]].astype("float64") * 2 + 1, ds[v["name"]])
+        U3 = numpy.ma.filled(numpy.ma.asarray(scaled.U, dtype=float), numpy.nan)
+        hidden3 = numpy.ma.getmaskarray(numpy.ma.masked_array(U3, mask=getattr(scaled, "Umask", numpy.ma.nomask)))
+        for n in range(min(n_faces, scaled.N)):
+            wu, wv = stored(u, n), stored(v, n)
+            if hidden3[n] or any(isinstance(w, float) and math.isnan(w) for w in (wu, wv)):
+                continue
+            ctx.check(same_number(U3[n], float(wu) * 2 + 1), "C19.quiver_components",
+                      lambda: f"make_quiver(u*2+1, v): arrow {n} has u component {U3[n]}; cell {n} "
+                      f"stores u = {wu}")
         if len(gd) == 2:
             # v handed over with its dimensions in the other order: refuse, or pair correctly
             flipped = ds[v["name"]].transpose(*reversed(ds[v["name"]].dims))
